@@ -347,8 +347,20 @@ def rule_G4(ctx):
     prog = ctx.prog
     from .b import _pointee_size
     n = 0
-    for fname, file in (("lbuf_replace", "lbuf.c"), ("lbuf_opt", "lbuf.c"), ("sbuf_extend", "sbuf.c")):
-        f = prog.func(fname, file=file)
+    anchors = [("lbuf_replace", "lbuf.c"), ("lbuf_opt", "lbuf.c"), ("sbuf_extend", "sbuf.c")]
+    todo = []
+    for fname, file in anchors:
+        f0 = prog.func(fname, file=file)
+        todo.append(f0)
+        # the growth may live in a helper of the file that the anchor calls
+        for c_ in f0.calls():
+            h_ = prog.resolve(f0, c_["fn"]) if c_.get("fn") else None
+            if h_ is not None and h_.file == f0.file and h_ is not f0 and h_ not in todo and h_.static and \
+                    any(True for _ in h_.calls("malloc")) and any(True for _ in h_.calls(("memcpy", "memmove"))) and \
+                    (h_.name, h_.file) not in anchors:
+                todo.append(h_)
+    for f in todo:
+        fname = f.name
         news = {}
         for s, lv, op, rhs in stores(f.body):
             if op in ("=", "init") and rhs is not None and is_call(strip_casts(rhs), "malloc"):
@@ -484,6 +496,22 @@ def rule_G3(ctx):
                         marks[0] = m
                         env = {lb: {"mark": marks}, sname: (Ptr((0x61, 0)) if has_s else None),
                                pos: p_, ndel: d_, nins: i_, "i": 0}
+                        # locals computed from these before the loop (int diff = n_ins - n_del; ..)
+                        ip_ = Interp(prog)
+                        for st_ in f.body.get("body", []):
+                            if st_ is loop:
+                                break
+                            if st_ is None or st_["k"] != "decl":
+                                continue
+                            for v_ in st_["vars"]:
+                                if "init" not in v_ or v_["name"] in env or any(True for _ in calls_in(v_["init"])):
+                                    continue
+                                try:
+                                    val_ = ip_.expr(f, v_["init"], env, 0)
+                                except Unsupported:
+                                    continue
+                                if isinstance(val_, int):
+                                    env[v_["name"]] = val_
                         try:
                             Interp(prog).stmt(f, loop, env, 0)
                         except Unsupported as e:
